@@ -285,6 +285,34 @@ func c05API(c *Ctx, msgs []string) {
 			}
 		}
 
+		// (a0) whatever the request says about content types: an error is answered with a decodable status
+		for _, hv := range [][2]string{{"text/plain", ""}, {"application/json; charset=utf-8", ""}, {"image/jpeg", "*/*"}, {"application/x-unknown", "text/html"}, {"", "application/xml, */*;q=0.1"}, {"application/protobuf", ""}} {
+			r := httptest.NewRequest("GET", "/c05/fail", nil)
+			if hv[0] != "" {
+				r.Header.Set("Content-Type", hv[0])
+			}
+			if hv[1] != "" {
+				r.Header.Set("Accept", hv[1])
+			}
+			rec, pn := fx.Serve(r)
+			hin := fmt.Sprintf("Content-Type=%q Accept=%q %s", hv[0], hv[1], in)
+			c.Eval("api-http-headers", hin, true)
+			if pn != nil {
+				c.SpecFail("api-http-headers", hin, fmt.Sprint("panic: ", pn), "an error response", "C05/http/panic/request-content-type", "an error answered to a request with an unusual Content-Type / Accept panics")
+				continue
+			}
+			got := &spb.Status{}
+			var derr error
+			if strings.HasPrefix(rec.Header().Get("Content-Type"), "application/json") {
+				derr = protojson.Unmarshal(rec.Body.Bytes(), got)
+			} else {
+				derr = proto.Unmarshal(rec.Body.Bytes(), got)
+			}
+			if rec.Code != expectedHTTP(uint32(sc.code)) || derr != nil || !proto.Equal(got, want) {
+				c.SpecFail("api-http-headers", hin, fmt.Sprintf("%d %v %q ct=%s", rec.Code, derr, truncS(rec.Body.String(), 160), rec.Header().Get("Content-Type")), fmt.Sprintf("%d %s", expectedHTTP(uint32(sc.code)), prototextS(want)), "C05/http/status-body/request-content-type", "the status does not reach an HTTP client that sent an unusual Content-Type / Accept")
+			}
+		}
+
 		// (a') the handler sent its headers before failing: the status still reaches the client
 		if sc.code >= 1 && sc.code <= 16 {
 			headerFirst = true
@@ -409,8 +437,10 @@ func c05API(c *Ctx, msgs []string) {
 				c.SpecFail("api-web", ct+" "+in, hexs(raw), "whole frames", "C05/web/truncated-frame", "gRPC-web body ends inside a frame")
 				continue
 			}
+			// what a gRPC-web client can read: the header block as committed and the trailer frame
+			// (not HTTP trailers, which browsers do not expose)
 			hdr := http.Header{}
-			for k, v := range rec.Header() {
+			for k, v := range rec.Result().Header {
 				hdr[strings.ToLower(k)] = v
 			}
 			ndata := 0
@@ -459,6 +489,9 @@ func c05API(c *Ctx, msgs []string) {
 				if "ok "+strconv.Itoa(int(got.code)) != wantCode {
 					c.res.NDisagree++
 					c.res.Disagree = append(c.res.Disagree, Case{Kind: "api-ws", Input: in, Impl: fmt.Sprint(got.code), Model: wantCode})
+				}
+				if "ok "+strconv.Itoa(int(got.code)) != wantCode || got.code == 1005 || got.code == 1006 {
+					c.SpecFail("api-ws", in, fmt.Sprintf("%d %q", got.code, got.reason), "close code "+wantCode, "C05/ws/close-code-not-mapped", "the close frame does not carry the close code the status code maps to")
 				}
 				if got.code == 1000 || !strings.HasPrefix(sc.msg, got.reason) || (len(sc.msg) <= 123 && got.reason != sc.msg) {
 					c.SpecFail("api-ws", in, fmt.Sprintf("%d %q", got.code, got.reason), fmt.Sprintf("error close code, reason %q", sc.msg), "C05/ws/close-frame", "close frame does not carry the status")
